@@ -1327,6 +1327,11 @@ func (r *Resolvable) walkObject(obj *Object, parent *astjson.Value) (hasError bo
 	}
 
 	typeName := value.GetStringBytes("__typename")
+	if typeName == nil && !obj.isAbstract() && len(obj.PossibleTypes) == 1 {
+		// the type of a concrete object is statically known: type conditions inside it
+		// must not depend on the subgraph echoing __typename
+		typeName = unsafebytes.StringToBytes(obj.TypeName)
+	}
 	if typeName == nil && obj.isAbstract() {
 		// an abstract value without a runtime type cannot be validated against
 		// the contract, so it must be rejected
